@@ -106,8 +106,8 @@ def check_report(run, name, src, cat, tmp, k):
             if level not in ("Error", "Notice"):
                 found |= run.violation("bad-level", dict(data, diag=(level, code)))
             if code not in cat or cat[code] != text:
-                found |= run.violation("not-catalogue-text", dict(data, diag=(code, text)),
-                                       finding_id="C08-bad-lexeme-not-in-catalogue" if code == "BAD_LEXEME" else None)
+                # (BAD_LEXEME, once built with a free-form text, is a catalogue entry since the repair: no finding id suppresses here)
+                found |= run.violation("not-catalogue-text", dict(data, diag=(code, text)))
             if not (1 <= l <= nlines and c >= 1):
                 found |= run.violation("position-outside-file", dict(data, diag=(code, l, c), nlines=nlines))
         if (verdict == "OK") != all(lv == "Notice" for lv, *_ in ds):
